@@ -105,6 +105,63 @@ func simpleProgram(r *rand.Rand, edges bool) string {
 	return sb.String()
 }
 
+var nearPositions = []string{"top-left", "top-center", "top-right", "center-left", "center-right", "bottom-left", "bottom-center", "bottom-right"}
+
+// nearProgram: a board whose extents reach far into negative coordinates — one to four plain rectangles (7-bit
+// single-line labels, default label position, a few unlabelled connections) plus one constant-near rectangle of
+// varying size (small … 900 px wide / tall) and label length at any of the eight near positions. Nothing overlaps a
+// label on such a board, so every label has to come out; what varies is where the origin of the canvas ends up.
+func nearProgram(r *rand.Rand) string {
+	n := 1 + r.Intn(4)
+	var sb strings.Builder
+	if r.Intn(2) == 0 {
+		sb.WriteString("direction: " + []string{"up", "down", "left", "right"}[r.Intn(4)] + "\n")
+	}
+	// short labels only: the renderer widens a box whose label needs more cells than its pixel width gives, and the
+	// widened box then overlaps its neighbours (a known, separate defect) — that must not blur this profile
+	short := []string{"alpha", "beta", "gamma", "delta", "x", "42", "Q", "ok go", "db-1", "a_b", "side"}
+	for i := 0; i < n; i++ {
+		fmt.Fprintf(&sb, "s%d: \"%s\"\n", i, short[r.Intn(len(short))])
+	}
+	for i := 1; i < n; i++ {
+		fmt.Fprintf(&sb, "s%d -> s%d\n", r.Intn(i), i)
+	}
+	label := short[r.Intn(len(short))]
+	fmt.Fprintf(&sb, "side: \"%s\" {\n  near: %s\n", label, nearPositions[r.Intn(len(nearPositions))])
+	switch r.Intn(4) {
+	case 0:
+		fmt.Fprintf(&sb, "  width: %d\n", 200+r.Intn(700))
+	case 1:
+		fmt.Fprintf(&sb, "  height: %d\n", 150+r.Intn(500))
+	case 2:
+		fmt.Fprintf(&sb, "  width: %d\n  height: %d\n", 100+r.Intn(800), 60+r.Intn(500))
+	}
+	sb.WriteString("}\n")
+	return sb.String()
+}
+
+// reuse renders the diagram twice with ONE artist, first in character set `first`, then in `second` (as a long-lived
+// process that keeps its artist would), and returns the second render.
+func reuse(w *outl.Worker, d *d2target.Diagram, first, second charset.Type, fresh map[string]any) map[string]any {
+	var out []byte
+	var err error
+	res := hl.Guard(func() {
+		a := d2ascii.NewASCIIartist()
+		if _, err = a.Render(w.Ctx, d, &d2ascii.RenderOpts{Charset: first}); err != nil {
+			return
+		}
+		out, err = a.Render(w.Ctx, d, &d2ascii.RenderOpts{Charset: second})
+	})
+	if res == "ok" && err != nil {
+		res = "error: " + err.Error()
+	}
+	h := hl.Hx(out)
+	if res == fresh["outcome"] && h == fresh["hex"] {
+		return map[string]any{"same": true}
+	}
+	return map[string]any{"same": false, "outcome": res, "hex": h}
+}
+
 func boardCases(w *outl.Worker, j job, path string, d *d2target.Diagram, out *[]map[string]any) {
 	shapes := []any{}
 	for _, s := range d.Shapes {
@@ -118,9 +175,14 @@ func boardCases(w *outl.Worker, j job, path string, d *d2target.Diagram, out *[]
 		shapes = append(shapes, map[string]any{"id": s.ID, "type": s.Type, "label": s.Label, "w": s.Width, "h": s.Height, "multiple": s.Multiple,
 			"pos": s.LabelPosition, "level": s.Level, "container": container, "icon": s.Icon != nil})
 	}
+	fa, fu := render(w, d, charset.ASCII), render(w, d, charset.Unicode)
 	*out = append(*out, map[string]any{"k": "board",
-		"in":  map[string]any{"src": j.src, "engine": j.engine, "board": path, "profile": j.profile},
-		"out": map[string]any{"ascii": render(w, d, charset.ASCII), "unicode": render(w, d, charset.Unicode), "shapes": shapes, "texts": texts(d), "nconn": len(d.Connections)},
+		"in": map[string]any{"src": j.src, "engine": j.engine, "board": path, "profile": j.profile},
+		"out": map[string]any{"ascii": fa, "unicode": fu,
+			// the same artist instance reused across character sets, in both orders
+			"asciiReused":   reuse(w, d, charset.Unicode, charset.ASCII, fa),
+			"unicodeReused": reuse(w, d, charset.ASCII, charset.Unicode, fu),
+			"shapes":        shapes, "texts": texts(d), "nconn": len(d.Connections)},
 		"triv": len(d.Shapes) == 0})
 	for _, l := range d.Layers {
 		boardCases(w, j, path+"/layers."+l.Name, l, out)
@@ -194,7 +256,9 @@ func run(c *hl.Ctx) error {
 		if r.Intn(3) == 0 {
 			engine = "elk"
 		}
-		if i%3 == 0 {
+		if i%4 == 3 {
+			jobs = append(jobs, job{nearProgram(r), engine, "near"})
+		} else if i%3 == 0 {
 			// one plain shape alone on the board: nothing can overlap its label
 			src := fmt.Sprintf("s0: \"%s\"", simpleWords[r.Intn(len(simpleWords))])
 			if r.Intn(5) > 0 {
@@ -206,6 +270,22 @@ func run(c *hl.Ctx) error {
 		} else {
 			jobs = append(jobs, job{simpleProgram(r, true), engine, "chain"})
 		}
+	}
+	// boards with negative-coordinate extents: fixed ones (a wide box left of / a tall box above a small graph) and
+	// generated ones, through both engines
+	for _, s := range []string{
+		"side: side {\n  near: center-left\n  width: 700\n}\nfirst -> second -> third\nfirst -> fourth\n",
+		"direction: right\nhead: head {\n  near: top-center\n  height: 500\n}\nfirst -> second -> third\nfirst -> fourth\n",
+		"only: the only shape\nbig: big {\n  near: top-left\n  width: 600\n  height: 400\n}\n",
+	} {
+		jobs = append(jobs, job{s, "dagre", "near"}, job{s, "elk", "near"})
+	}
+	for i := 0; i < n/4; i++ {
+		engine := "dagre"
+		if r.Intn(3) == 0 {
+			engine = "elk"
+		}
+		jobs = append(jobs, job{nearProgram(r), engine, "near"})
 	}
 	res := make([][]map[string]any, len(jobs))
 	outl.Par(len(jobs), func(i int, w *outl.Worker) { res[i] = runJob(w, jobs[i]) })
